@@ -264,6 +264,9 @@ func (e *Engine) globalObj(st *State, g *ssa.Global) ObjID {
 	return id
 }
 
+// ZeroOnly lists packages whose globals are allocated (zero values) but whose initialisers do not run.
+var ZeroOnly = map[string]bool{"time": true}
+
 // InitPackages allocates the globals of the listed packages and runs their init functions
 // (calls into init functions of packages outside the list are skipped).
 func (e *Engine) InitPackages(st *State, paths []string) {
@@ -272,7 +275,9 @@ func (e *Engine) InitPackages(st *State, paths []string) {
 		for _, w := range paths {
 			if p.Pkg.Path() == w || (strings.HasSuffix(w, "/...") && strings.HasPrefix(p.Pkg.Path(), strings.TrimSuffix(w, "...")[:len(w)-4])) {
 				pkgs = append(pkgs, p)
-				e.initPkgs[p.Pkg.Path()] = true
+				if !ZeroOnly[p.Pkg.Path()] {
+					e.initPkgs[p.Pkg.Path()] = true
+				}
 			}
 		}
 	}
